@@ -20,7 +20,7 @@ from vf.monitor import Probes
 
 SHARDS = {"quick": 4, "thorough": 16}
 BUDGET = {"quick": 20, "thorough": 240}
-MIN_CASES = {"quick": 4000, "thorough": 150000}
+MIN_CASES = {"quick": 10000, "thorough": 200000}
 EXHAUSTIVE_CLAIM = True
 RULE = ("documents = lists of nodes rendered to str and to its UTF-8 bytes: anchors (tag a/A, href/HREF/hReF, value in double quotes / single quotes / unquoted, ASCII whitespace "
         "before href, 0-2 extra attributes before/after incl. look-alikes data-href, v-href, :href, closed or not), script blocks (6 opening spellings, anchors and '<' in the body), "
@@ -1000,6 +1000,7 @@ def directed():
     # quoting styles, case, attributes, unclosed
     for q in ('"', "'", ""):
         add("quote", [anchor("http://b.org/x?a=1&amp;b=2", q=q, tag="A", name="HREF", pre=['class="c"'], post=["rel=nofollow"], close=False)])
+    add("other-quote-inside", [anchor('"/x"', q="'"), anchor("'/y'", q='"'), anchor('"', q="'"), anchor("&quot;/z&quot;"), anchor("'/w", q='"', close=False)])
     add("entities", [anchor("http:&#x2F;&#x2F;b.org&#x2F;x"), anchor("/p?a=1&amp;b=&quot;2&quot;"), anchor("&#104;ttp://b.org/")])
     add("edge-entity-space", [anchor("&#32;/x&nbsp;"), anchor("&nbsp;http://b.org/x&#32;"), anchor("\xa0/y ")])
     add("lookalike-attrs", [anchor("/yes", pre=['data-href="/no"']), anchor("/yes2", post=['data-href="/no"', 'hreflang="fr"']), anchor("/yes3", pre=[DECOY_ATTR])])
